@@ -235,6 +235,21 @@ fn run_trace(
         if s.next.is_none() {
             break;
         }
+        // arrival at a function entry by a jump, a branch or by falling into it: the function-entry
+        // node's claims hold now, and "value at entry" is re-based to this moment
+        if let Some(nt) = s.next {
+            if let Some(n0) = lk.first_node(flat, nt) {
+                if let Some(e) = lk.entry_before.get(&n0) {
+                    m.rebase_activation();
+                    let en = &cfg.nodes[*e];
+                    if let Some(v) = check_state(&m, flat, en, "after", &en.reg_out, &en.mem_out, ctx, "function-entry-by-jump", text, &tail) {
+                        return Some(v);
+                    }
+                    ctx.fact("function_entries_by_jump", 1);
+                    continue;
+                }
+            }
+        }
         // claims after executing (same activation)
         if let Some(v) = check_state(&m, flat, last, "after", &last.reg_out, &last.mem_out, ctx, &context, text, &tail) {
             return Some(v);
@@ -305,7 +320,8 @@ impl Prop for C01 {
 
     fn gen(ch: &mut Choices, tier: Tier) -> Option<Case> {
         let big = tier == Tier::Thorough;
-        let o = AbiOpts::all(if big { 4 } else { 3 }, if big { 14 } else { 9 });
+        let mut o = AbiOpts::all(if big { 4 } else { 3 }, if big { 14 } else { 9 });
+        o.handoff = true;
         let (lines, info) = abi::program(ch, &o);
         let n = if big { 5 } else { 3 };
         let inputs = (0..n).map(|_| Inputs::from_choices(ch)).collect();
